@@ -116,7 +116,11 @@ impl QueryEngine {
         F: FnOnce() -> Fut,
         Fut: Future<Output = Result<T>>,
     {
+        #[cfg(feature = "verif-hooks")]
+        crate::verif_hooks::pause("query:before_register").await;
         self.register_metrics_table_for_chunks(chunk_paths).await?;
+        #[cfg(feature = "verif-hooks")]
+        crate::verif_hooks::pause("query:after_register").await;
         operation().await
     }
 
